@@ -16,13 +16,27 @@ public:
     std::vector<Json> samples;
     size_t keep_per_key = 3;
     size_t keep_samples = 3;
+    Emitter* live = nullptr;  // when set, violations are written out at once (survive a later crash of the worker)
 
     void count(const std::string& name, long long k = 1) { counters[name] += k; }
     void violation(const std::string& key, const std::string& what, const std::string& case_id, Json detail = Json())
     {
         long long& c = vcount[key];
         ++c;
-        if ((size_t)c <= keep_per_key) violations.push_back(Violation{key, what, case_id, std::move(detail)});
+        if ((size_t)c <= keep_per_key)
+        {
+            Violation v{key, what, case_id, std::move(detail)};
+            if (live)
+            {
+                Json j = Json::object();
+                Json vs = Json::array();
+                vs.push(Reporter::to_json(v));
+                j["violations"] = vs;
+                live->emit_json(j);
+            }
+            else
+                violations.push_back(std::move(v));
+        }
     }
     void sample(Json j)
     {
